@@ -563,6 +563,22 @@ func c09Record(args []string) error {
 			p = filepath.Join(dir, "a.svg")
 			render.ToSVG(ci, p, render.NewMarchingSquaresUniform(40))
 			emit(detObs{"det", "circle/uniform/40/svg", fmt.Sprintf("gomaxprocs=%d rep=%d", gp, rep), fileDigest(p), 0})
+			// a model with no outline at all (everything removed): the file, read the moment the call returns, is the
+			// same empty drawing whether the path is fresh or holds an earlier render of something else
+			big, _ := sdf.Circle2D(2)
+			empty := sdf.Difference2D(ci, big)
+			for k, prep := range []string{"fresh-path", "over-an-earlier-render"} {
+				pd := filepath.Join(dir, fmt.Sprintf("empty-%d-%d-%d.dxf", rep, gp, k))
+				ps := filepath.Join(dir, fmt.Sprintf("empty-%d-%d-%d.svg", rep, gp, k))
+				if k == 1 {
+					render.ToDXF(ci, pd, render.NewMarchingSquaresQuadtree(30))
+					render.ToSVG(ci, ps, render.NewMarchingSquaresQuadtree(30))
+				}
+				render.ToDXF(empty, pd, render.NewMarchingSquaresQuadtree(30))
+				emit(detObs{"det", "empty/quadtree/30/dxf-bytes", fmt.Sprintf("%s gomaxprocs=%d rep=%d", prep, gp, rep), fileDigest(pd), 0})
+				render.ToSVG(empty, ps, render.NewMarchingSquaresUniform(30))
+				emit(detObs{"det", "empty/uniform/30/svg", fmt.Sprintf("%s gomaxprocs=%d rep=%d", prep, gp, rep), fileDigest(ps), 0})
+			}
 		}
 	}
 	return nil
